@@ -74,6 +74,10 @@ struct NCm { using trivially_relocatable = std::false_type; NCm(const NCm&); NCm
 struct NCt { NCt(const NCt&); NCt(NCt&&); NCt& operator=(const NCt&); NCt& operator=(NCt&&); ~NCt(); int a; };   // throwing moves
 struct NCx { using trivially_relocatable = int; NCx(const NCx&); ~NCx(); int a; };   // declares something that is not true_type
 struct MO1 { using trivially_relocatable = std::true_type; MO1(MO1&&) noexcept; MO1& operator=(MO1&&) noexcept; ~MO1(); int a; };
+struct NCa { NCa(const NCa&); NCa(NCa&&) noexcept; NCa& operator=(const NCa&); NCa& operator=(NCa&&); ~NCa(); int a; };            // only the move assignment may throw
+struct NCc { NCc(const NCc&); NCc(NCc&&); NCc& operator=(const NCc&); NCc& operator=(NCc&&) noexcept; ~NCc(); int a; };            // only the move constructor may throw
+struct NCs { NCs(const NCs&); NCs(NCs&&) noexcept; NCs& operator=(const NCs&); NCs& operator=(NCs&&) noexcept; ~NCs(); int a; };   // nothrow moves, throwing ADL swap
+void swap(NCs&, NCs&);
 struct TD  { int a; ~TD() = default; };                                       // trivially destructible aggregate
 }
 '''
@@ -159,7 +163,7 @@ def c17_witnesses(tier):
                     w.add('LAYOUT', 'layout|align|%d|%d|%s|%d' % (s, a, st, n),
                           'alignof(%s) >= alignof(%s)' % (SV, T), 'SmallVector alignment covers the element alignment')
     # --- NOEXCEPT (documented conditions, re-derived from std traits)
-    for kd in ['k::TC0', 'k::NC0', 'k::NC1', 'k::NCt', 'k::MO1', 'k::NCm']:
+    for kd in ['k::TC0', 'k::NC0', 'k::NC1', 'k::NCt', 'k::MO1', 'k::NCm', 'k::NCa', 'k::NCc', 'k::NCs']:
         r = 'oracle::reloc<%s>::value' % kd
         mc = 'std::is_nothrow_move_constructible<%s>::value' % kd
         ma = 'std::is_nothrow_move_assignable<%s>::value' % kd
